@@ -1276,3 +1276,21 @@ LEVEL_NOTE = ("Trusted: Coq kernel+VM, the generators, the hand-written control 
               "pendulum.from_format's own result inside round trips and sessions (its parts come from the modelled Formatter.parse).")
 TECHNIQUE = ("Coq proof (induction on digit lists, lia, vm_compute on generated tables, regex shape invariance + one kernel computation per text shape and per locale table entry) "
              "over translated tables + differential correspondence + stdlib oracle")
+
+
+# the format-side method bodies are translated from /repo on every run and the hand model is PROVED equal to them
+TRUSTED = list(TRUSTED) + [
+    "tools/vlib/pyfloat2gallina.py + tools/vlib/gens/g57_formatter_methods.py (Formatter._format_localizable_token, _format_token, one unfolding of Formatter.format, DateTime._to_string, "
+    "to_iso8601_string translated from /repo on every run; reading rules in the generator's docstring: strings = code-point lists, token in <table> = membership in the GENERATED tables, "
+    "locale.get(<static key>) = the field of the generated locale record, <table>[i] = tbl_get, self._TOKENS_RULES[token](dt) = apply_rule on the generated rule, f\"{n:02d}\" = render_0wd 2, "
+    "dt.<quantity> = the field of fq_of dt, dt.utcoffset() = t_off seconds, _FORMAT_RE.sub(callback) = the model's tokenizer + render_pieces (recognised shape, fails closed otherwise), the "
+    "recursive self.format as a parameter) and coq/Model/FormatterPrims.v: they replace the former trust in the hand CONTROL FLOW of Model/Formatter.v (format_localizable, format_token, "
+    "format_offset's integer reading of the float code, to_string, the iso8601 helper), now PROVED equal to the translation: model_is_code_format_localizable_token, model_is_code_format_token, "
+    "model_is_code_format, model_is_code_to_string_helpers, offset_float_code_is_integer_arithmetic (closed under the global context; the offset float code by exhaustive kernel evaluation "
+    "over every utcoffset strictly between -24 h and +24 h)",
+]
+LEVEL_NOTE = LEVEL_NOTE + (" Model = code (format side): coq/Gen/FormatterMethods.v is translated from formatter.py / datetime.py on every run and Proofs/FormatterMethodsFacts.v proves it equal to "
+                           "Model/Formatter.v for every DateTime record, token and locale (utcoffset within +-24 h for the Z / ZZ float code), so a semantic edit of a method body breaks a proof or "
+                           "fails closed (self-tested by mutation). Still hand + pinned (hand_modelled_sources_unchanged): the tokenizer (tokenize / bracket_body: the reading of _FORMAT_RE over the "
+                           "generated alternatives), apply_rule / render_dec (the reading of the f-string lambdas of _TOKENS_RULES), Locale.ordinalize, Locale.load / find_locale, isoformat_T, the "
+                           "interpretation string_helper of the generated to_*_string table, and the whole parse side (Model/FormatterParse.v: _get_parsed_values, _check_parsed, pattern assembly).")
